@@ -65,7 +65,16 @@ func runPhased(r *Run, in *epochInput) historyResult {
 			}
 			champOf[sp] = snap(best.Genotype)
 		}
-		if err := genetics.VPrepare(ex, conf, ep, pop); err != nil {
+		var perr error
+		func() {
+			defer func() {
+				if p := recover(); p != nil {
+					perr = fmt.Errorf("panic: %v", p)
+				}
+			}()
+			perr = genetics.VPrepare(ex, conf, ep, pop)
+		}()
+		if err := perr; err != nil {
 			if in.Prop == "C09" {
 				bad("prepare-error", "prepareForReproduction failed: "+err.Error())
 			}
@@ -195,8 +204,18 @@ func runPhased(r *Run, in *epochInput) historyResult {
 				preReps[sp.Id] = sp.Organisms[0]
 			}
 		}
-		if err := genetics.VReproduce(ex, conf, ep, pop); err != nil {
-			res.err = err
+		var rerr error
+		func() {
+			defer func() {
+				if p := recover(); p != nil {
+					rerr = fmt.Errorf("panic: %v", p)
+				}
+			}()
+			rerr = genetics.VReproduce(ex, conf, ep, pop)
+		}()
+		if rerr != nil {
+			res.err = rerr
+			bad("reproduce-error", fmt.Sprintf("reproduction failed in epoch %d: %v", ep, rerr))
 			break
 		}
 		if in.Prop == "C08" {
